@@ -3,6 +3,9 @@
    handler_legacy117.go, handler_modern.go).
    Executable definitions only; proofs are in Proofs/C27*.v.
 
+   Baseline: /repo after the `fix:` commits.  [impl_run] = the handlers as they are now = [spec_run]
+   (lemma impl_is_spec); [old_run] is the pre-fix legacy code, kept for the refutation lemmas.
+
    Part 1: a tiny lock language.  A handler method is a program in the monad [M]; the
            primitives are [acquire]/[release] (RWMutex.Lock/Unlock), [try_rlock]/[runlock]
            (TryRLock/RUnlock), [panic], state access and [emit]; calling another method is
@@ -78,11 +81,12 @@ Definition decline_bundle (p : pack) : bundle := mkBundle (pid p) (phash p) Decl
 Record env := mkEnv { is117 : bool;      (* player.Protocol() >= 1.17 *)
                       has_be : bool }.   (* player.BackendInFlight() != nil *)
 
-(* which of the latent repairs are present (all true = repaired code) *)
+(* which of the repairs of c3c83c0 are present (all true = the code as it is now; all false = pre-fix) *)
 Record cfg := mkCfg { nullable : bool;   (* prevResourceResponse is a nullable instead of a bool *)
                       nilguard : bool }. (* a response with an empty queue is tolerated *)
 Definition spec_cfg := mkCfg true true.
-Definition impl_cfg := mkCfg false false.
+Definition impl_cfg := mkCfg true true.     (* today's code *)
+Definition old_cfg := mkCfg false false.    (* pre-fix code *)
 
 (* ------------------------------------------------------- Part 1: lock language ---------- *)
 
@@ -274,30 +278,30 @@ Definition tick_body (fuel : nat) (e : env) (respond : bundle -> M lstate bool) 
   | q :: _ => if prev_declined s then tick_loop fuel e respond else m_send q
   end.
 
-(* --- today's code: tickResourcePackQueue and onResourcePackResponse both take h.Lock()
+(* --- PRE-FIX code (before c3c83c0): tickResourcePackQueue and onResourcePackResponse both take h.Lock()
        themselves and call each other; QueueResourcePack calls tick with the lock held --- *)
-Fixpoint impl_pair (fuel : nat) (e : env) (c : cfg) : (bundle -> M lstate bool) * M lstate unit :=
+Fixpoint old_pair (fuel : nat) (e : env) (c : cfg) : (bundle -> M lstate bool) * M lstate unit :=
   match fuel with
   | O => (fun _ => out_of_fuel, out_of_fuel)
   | Datatypes.S f =>
-    let '(resp, tick) := impl_pair f e c in
+    let '(resp, tick) := old_pair f e c in
     ((fun b => locked_defer (on_response_body e c tick (fun q => GOwn q b) b)),   (* onResourcePackResponse *)
      locked_defer (tick_body fuel e resp))                                        (* tickResourcePackQueue *)
   end.
-Definition impl_fuel (s : lstate) : nat := (4 + 2 * length (l_queue s))%nat.
-Definition impl_on_response (e : env) (c : cfg) (b : bundle) : M lstate bool :=
-  s <- get ;; fst (impl_pair (impl_fuel s) e c) b.
-Definition impl_tick (e : env) (c : cfg) : M lstate unit :=
-  s <- get ;; snd (impl_pair (impl_fuel s) e c).
+Definition old_fuel (s : lstate) : nat := (4 + 2 * length (l_queue s))%nat.
+Definition old_on_response (e : env) (c : cfg) (b : bundle) : M lstate bool :=
+  s <- get ;; fst (old_pair (old_fuel s) e c) b.
+Definition old_tick (e : env) (c : cfg) : M lstate unit :=
+  s <- get ;; snd (old_pair (old_fuel s) e c).
 (* QueueResourcePack: Lock, defer Unlock, PushBack, if Len()==1 tick *)
-Definition impl_queue (e : env) (c : cfg) (id hash : N) (f be : bool) : M lstate unit :=
+Definition old_queue (e : env) (c : cfg) (id hash : N) (f be : bool) : M lstate unit :=
   locked_defer (
     s <- get ;;
     put (push_pack s id hash f be) ;;;
     s1 <- get ;;
-    if Nat.eqb (length (l_queue s1)) 1 then impl_tick e c else ret_ tt).
+    if Nat.eqb (length (l_queue s1)) 1 then old_tick e c else ret_ tt).
 
-(* --- repaired code (fixes/C27-1.diff): the public methods take the lock once; the *Locked
+(* --- the code as it is now (fix commit c3c83c0): the public methods take the lock once; the *Locked
        variants do not; the declines made by tick do not tick again --- *)
 Definition spec_on_response_locked (e : env) (c : cfg) (tickf : M lstate unit)
            (ghost : option pack -> event) (b : bundle) : M lstate bool :=
@@ -320,14 +324,14 @@ Definition l_clear : M lstate unit :=
 (* Remove: panics "Cannot remove a ResourcePack from a legacy client" (same in both) *)
 Definition l_remove : M lstate bool := panic.
 
-Inductive nesting := TodayNesting | RepairedNesting.
+Inductive nesting := OldNesting | CurrentNesting.
 
 Definition l_exec (n : nesting) (e : env) (c : cfg) (o : op) : M lstate ret :=
   match o with
   | Queue id hash f be =>
-    (match n with TodayNesting => impl_queue e c id hash f be | RepairedNesting => spec_queue e c id hash f be end) ;;; ret_ RUnit
+    (match n with OldNesting => old_queue e c id hash f be | CurrentNesting => spec_queue e c id hash f be end) ;;; ret_ RUnit
   | Response b =>
-    h <- (match n with TodayNesting => impl_on_response e c b | RepairedNesting => spec_on_response e c b end) ;; ret_ (RHandled h)
+    h <- (match n with OldNesting => old_on_response e c b | CurrentNesting => spec_on_response e c b end) ;; ret_ (RHandled h)
   | Remove _ => b <- l_remove ;; ret_ (RBool b)
   | Clear => l_clear ;;; ret_ RUnit
   end.
@@ -592,8 +596,9 @@ Definition run_handler (n : nesting) (c : cfg) (proto : N) (hb : bool) (h : list
   | Modern => run_modern (env_of proto hb) h
   | _ => run_legacy n (env_of proto hb) c h
   end.
-Definition spec_run := run_handler RepairedNesting spec_cfg.   (* what the property demands *)
-Definition impl_run := run_handler TodayNesting impl_cfg.       (* today's tree *)
+Definition spec_run := run_handler CurrentNesting spec_cfg.   (* what the property demands *)
+Definition impl_run := run_handler CurrentNesting impl_cfg.   (* the code as it is now *)
+Definition old_run := run_handler OldNesting old_cfg.         (* the legacy handlers before fix commit c3c83c0 *)
 
 (* pure runs *)
 Fixpoint run_lpure (e : env) (c : cfg) (s : lstate) (h : list op) : list step :=
